@@ -42,6 +42,7 @@ type holdPlan struct {
 	name, coll string
 	reached    chan struct{}
 	release    chan struct{}
+	fail       bool // answered with a server error (the store was briefly unavailable)
 }
 
 // HoldNext arms a hold: the next command `name` on collection `coll` signals `reached` and then blocks until `release`
@@ -62,6 +63,24 @@ func (s *Server) HoldNext(name, coll string) (reached <-chan struct{}, release f
 			close(h.release)
 		})
 	}
+}
+
+// FailNextOn: the next command `name` on collection `coll` is answered with a server error; `reached` is closed when it
+// arrived
+func (s *Server) FailNextOn(name, coll string) (reached <-chan struct{}) {
+	h := &holdPlan{name: name, coll: coll, reached: make(chan struct{}), release: make(chan struct{}), fail: true}
+	close(h.release)
+	s.hmu.Lock()
+	s.hold = h
+	s.hmu.Unlock()
+	return h.reached
+}
+
+// Disarm removes a hold / failure plan that was not reached
+func (s *Server) Disarm() {
+	s.hmu.Lock()
+	s.hold = nil
+	s.hmu.Unlock()
 }
 
 func New() (*Server, error) {
@@ -379,6 +398,13 @@ func (s *Server) handle(cmd bson.D) bson.D {
 		s.hmu.Unlock()
 		close(h.reached)
 		<-h.release
+		if h.fail {
+			s.mu.Lock()
+			s.n++
+			s.Log = append(s.Log, Cmd{N: s.n, Name: name, Coll: collName, Doc: cmd})
+			s.mu.Unlock()
+			return bson.D{{Key: "ok", Value: float64(0)}, {Key: "errmsg", Value: "injected failure"}, {Key: "code", Value: int32(96)}, {Key: "codeName", Value: "OperationFailed"}}
+		}
 	} else {
 		s.hmu.Unlock()
 	}
